@@ -276,14 +276,14 @@ pub fn read_msg(e: &SExp) -> Option<Msg> {
         return None;
     }
     let mut groups = vec![];
-    for g in &l[4..] {
+    for g in l.get(4..)? {
         let gl = g.list()?;
         if gl.first()?.atom()? != "g" {
             return None;
         }
         let tag = hexnum(gl.get(1)?.atom()?)? as u8;
         let mut attrs = vec![];
-        for a in &gl[2..] {
+        for a in gl.get(2..)? {
             let al = a.list()?;
             if al.len() != 3 || al[0].atom()? != "a" {
                 return None;
